@@ -8,6 +8,6 @@ CONSTANTS
   TRuns <- MCTRuns
   Top <- MCTop
   Depth = 3
-  MaxGens = 3
+  MaxGens = 2
 INVARIANTS AlgoFreshIsSpec StoredIsUnion HLeaf
 CHECK_DEADLOCK FALSE
